@@ -8,6 +8,7 @@ package c17
 // reports the case on disk (Track).
 
 import (
+	"encoding/hex"
 	"fmt"
 	"net/http/httptest"
 	"strings"
@@ -36,6 +37,8 @@ func genConc(t *rapid.T) Case {
 	}
 	c.AuthStyle = rapid.SampledFrom([]int{0, 0, 1, 2}).Draw(t, "authstyle")
 	c.Encrypt = rapid.IntRange(0, 3).Draw(t, "encrypt") > 0
+	hashA, encA := genKeysA(t, c.Encrypt)
+	c.KeysA = &KeyPair{Hash: hex.EncodeToString(hashA), Enc: hex.EncodeToString(encA)}
 	c.Unsecure = rapid.IntRange(0, 3).Draw(t, "unsecure") == 0
 	c.Scopes = []string{"openid"}
 	for _, s := range []string{"profile", "email"} {
